@@ -1,10 +1,9 @@
 /-
-  C02 at the level of parsed ranges: for EVERY range the npm matcher can hold whose operands carry no build
-  metadata, and EVERY strictly parsed candidate without build metadata, `VersionRange::satisfies` (model:
-  `Npm.satisfiesRange`) is exactly satisfaction of the node-semver comparator it denotes (`Spec.NodeSemver.satComp`
-  over `boundsOf`, the desugaring with `-0` floors).  Build metadata is excluded because the code lets it take part
-  in comparisons (recorded finding F-C02-6); partial operands do not occur at this level (the code pads them with
-  zeros while parsing: F-C02-2).
+  C02 at the level of parsed ranges: for EVERY range the npm matcher can hold and EVERY strictly parsed candidate,
+  `VersionRange::satisfies` (model: `Npm.satisfiesRange`) is exactly satisfaction of the node-semver comparator it
+  denotes (`Spec.NodeSemver.satComp` over `boundsOf`, the desugaring with `-0` floors).  Build metadata takes no part
+  on either side (the code compares by SemVer precedence since the repair of F-C02-6); partial operands do not occur
+  at this level (the code pads them with zeros while parsing: F-C02-2).
 -/
 import Vlsp.Spec.NpmDenote
 import Vlsp.Lemmas.PreFloor
@@ -80,6 +79,24 @@ theorem cmp4_gt (a b : Version) (o : Ordering) : cmp4 a b o = .gt ↔
   unfold cmp4
   rw [then_gt_iff, ← ord_gt_iff, then_gt_iff, ← ord_gt_iff, then_gt_iff]
 
+theorem then_eq_iff (m n : Nat) (o : Ordering) : (compare m n).then o = .eq ↔ m = n ∧ ordNum o = 1 := by
+  rcases Nat.lt_trichotomy m n with h | h | h
+  · rw [Nat.compare_eq_lt.mpr h]
+    exact ⟨(fun hh => by cases hh), (fun hh => by omega)⟩
+  · rw [Nat.compare_eq_eq.mpr h]
+    show o = .eq ↔ _
+    rw [ord_eq_iff]; omega
+  · rw [Nat.compare_eq_gt.mpr h]
+    exact ⟨(fun hh => by cases hh), (fun hh => by omega)⟩
+
+theorem cmp4_eq (a b : Version) (o : Ordering) : cmp4 a b o = .eq ↔
+    a.major = b.major ∧ a.minor = b.minor ∧ a.patch = b.patch ∧ ordNum o = 1 := by
+  unfold cmp4
+  rw [then_eq_iff, ← ord_eq_iff, then_eq_iff, ← ord_eq_iff, then_eq_iff]
+
+/-- the code's precedence comparison is the reference's -/
+theorem cmpPrecedence_eq (a b : Version) : cmpPrecedence a b = cmp4 a b (cmpPre a.pre b.pre) := rfl
+
 /-! ### the floor "0" -/
 
 theorem cmpPre_nil_zero : cmpPre [] ['0'] = .gt := by decide
@@ -94,33 +111,20 @@ theorem floor_not_lt (p : Text) (h : PreFloor p) : ordNum (cmpPre p ['0']) ≠ 0
   · rw [cmpPre_nil_zero]; simp [ordNum]
   · rw [Ne, ← ord_lt_iff]; exact h
 
-/-! ### what a model range denotes: `toRef`, `specRef`, `rangeBuildFree` (Spec/NpmDenote.lean) -/
-
-/-- the operands of a range carry no build metadata -/
-def BuildFree (r : Npm.VersionRange) : Prop := rangeBuildFree r = true
-
-theorem isEmpty_iff (t : Text) : t.isEmpty = true ↔ t = [] := by cases t <;> simp
-
-theorem mk_eta (v : Version) (h : v.build = []) : (⟨v.major, v.minor, v.patch, v.pre, []⟩ : Version) = v := by
-  cases v; simp_all
+/-! ### what a model range denotes: `toRef`, `specRef` (Spec/NpmDenote.lean) -/
 
 /-! ### the comparisons as arithmetic -/
 
-theorem lt_iff (a b : Version) (ha : a.build = []) (hb : b.build = []) :
-    Semver.lt a b = true ↔ cmp4 a b (cmpPre a.pre b.pre) = .lt := by
-  unfold Semver.lt; rw [cmp_eq_prec a b ha hb, cmpPrec_eq]; simp
-
-theorem gt_iff (a b : Version) (ha : a.build = []) (hb : b.build = []) :
-    Semver.gt a b = true ↔ cmp4 a b (cmpPre a.pre b.pre) = .gt := by
-  unfold Semver.gt; rw [cmp_eq_prec a b ha hb, cmpPrec_eq]; simp
-
-theorem ge_iff (a b : Version) (ha : a.build = []) (hb : b.build = []) :
-    Semver.ge a b = true ↔ ¬ cmp4 a b (cmpPre a.pre b.pre) = .lt := by
-  unfold Semver.ge; rw [cmp_eq_prec a b ha hb, cmpPrec_eq]; simp
-
-theorem le_iff (a b : Version) (ha : a.build = []) (hb : b.build = []) :
-    Semver.le a b = true ↔ ¬ cmp4 a b (cmpPre a.pre b.pre) = .gt := by
-  unfold Semver.le; rw [cmp_eq_prec a b ha hb, cmpPrec_eq]; simp
+theorem plt_iff (a b : Version) : plt a b = true ↔ cmp4 a b (cmpPre a.pre b.pre) = .lt := by
+  unfold plt; rw [cmpPrecedence_eq]; simp
+theorem pgt_iff (a b : Version) : pgt a b = true ↔ cmp4 a b (cmpPre a.pre b.pre) = .gt := by
+  unfold pgt; rw [cmpPrecedence_eq]; simp
+theorem pge_iff (a b : Version) : pge a b = true ↔ ¬ cmp4 a b (cmpPre a.pre b.pre) = .lt := by
+  unfold pge; rw [cmpPrecedence_eq]; simp
+theorem ple_iff (a b : Version) : ple a b = true ↔ ¬ cmp4 a b (cmpPre a.pre b.pre) = .gt := by
+  unfold ple; rw [cmpPrecedence_eq]; simp
+theorem peq_iff (a b : Version) : peq a b = true ↔ cmp4 a b (cmpPre a.pre b.pre) = .eq := by
+  unfold peq; rw [cmpPrecedence_eq]; simp
 
 theorem precLt_iff (a b : Version) : precLt a b = true ↔ cmp4 a b (cmpPre a.pre b.pre) = .lt := by
   unfold precLt; rw [cmpPrec_eq]; simp
@@ -149,29 +153,27 @@ theorem precLe_floor (x : Version) (hx : PreFloor x.pre) (A B C : Nat) :
 
 /-! ### the theorem -/
 
-/-- **for every parsed range without build metadata and every build-free candidate whose prerelease is well formed,
-    the code's `satisfies` is node-semver's** -/
-theorem c02_npm_ast (r : Npm.VersionRange) (x : Version) (hr : BuildFree r) (hb : x.build = [])
-    (hx : PreFloor x.pre) :
+/-- **for every parsed range and every candidate whose prerelease is well formed, the code's `satisfies` is
+    node-semver's** (each side becomes a formula over the three numbers and the prerelease comparison; `omega`
+    decides the equivalence) -/
+theorem c02_npm_ast (r : Npm.VersionRange) (x : Version) (hx : PreFloor x.pre) :
     Npm.satisfiesRange r x = satComp (toRef r) x := by
   cases r with
   | exact v =>
-    simp only [BuildFree, rangeBuildFree, isEmpty_iff] at hr
     simp only [Npm.satisfiesRange, toRef, satComp, boundsOf, fullP, Bounds.sat, Bool.not_false, Bool.true_and, Bool.and_true]
-    rw [mk_eta v hr, Bool.eq_iff_iff, beq_iff_eq, beq_iff_eq]
-    rw [← cmp_eq_prec x v hb hr, cmp_eq_iff_eq]
+    rw [Bool.eq_iff_iff, peq_iff, beq_iff_eq, cmpPrec_eq]
+    simp only [cmp4_eq]
   | caret v =>
-    simp only [BuildFree, rangeBuildFree, isEmpty_iff] at hr
     simp only [Npm.satisfiesRange, toRef, satComp, boundsOf, fullP]
     rw [Bool.eq_iff_iff]
     have hsw := swap_sum x.pre v.pre
-    have hl := lt_iff x v hb hr
+    have hl := plt_iff x v
     rw [cmp4_lt] at hl
     by_cases hM : v.major > 0
     · have hM0 : (v.major == 0) = false := by simp; omega
       simp only [hM, if_true, hM0, Bool.false_eq_true, if_false, Bounds.sat, Bool.not_false, Bool.true_and, Bool.and_true,
-        mk_eta v hr, Bool.and_eq_true, precLe_iff, cmp4_gt, precLt_floor x hx]
-      cases hlt : Semver.lt x v with
+        Bool.and_eq_true, precLe_iff, cmp4_gt, precLt_floor x hx]
+      cases hlt : plt x v with
       | true => have hl' := hl.mp hlt; simp only [if_true, Bool.false_eq_true, false_iff]; omega
       | false =>
         have hl' : ¬ _ := fun h => by rw [hl.mpr h] at hlt; cases hlt
@@ -181,52 +183,45 @@ theorem c02_npm_ast (r : Npm.VersionRange) (x : Version) (hr : BuildFree r) (hb 
       by_cases hm : v.minor > 0
       · have hm0 : (v.minor == 0) = false := by simp; omega
         simp only [hM, if_false, hm, if_true, hM0b, hm0, Bool.false_eq_true, Bounds.sat, Bool.not_false, Bool.true_and,
-          Bool.and_true, mk_eta v hr, Bool.and_eq_true, precLe_iff, cmp4_gt, precLt_floor x hx]
-        cases hlt : Semver.lt x v with
+          Bool.and_true, Bool.and_eq_true, precLe_iff, cmp4_gt, precLt_floor x hx]
+        cases hlt : plt x v with
         | true => have hl' := hl.mp hlt; simp only [if_true, Bool.false_eq_true, false_iff]; omega
         | false =>
-        have hl' : ¬ _ := fun h => by rw [hl.mpr h] at hlt; cases hlt
-        simp only [Bool.false_eq_true, if_false, Bool.and_eq_true, beq_iff_eq]; omega
+          have hl' : ¬ _ := fun h => by rw [hl.mpr h] at hlt; cases hlt
+          simp only [Bool.false_eq_true, if_false, Bool.and_eq_true, beq_iff_eq]; omega
       · have hm0 : v.minor = 0 := by omega
         have hm0b : (v.minor == 0) = true := by simp [hm0]
         simp only [hM, if_false, hm, hM0b, hm0b, if_true, Bounds.sat, Bool.not_false, Bool.true_and,
-          Bool.and_true, mk_eta v hr, Bool.and_eq_true, precLe_iff, cmp4_gt, precLt_floor x hx]
-        cases hlt : Semver.lt x v with
+          Bool.and_true, Bool.and_eq_true, precLe_iff, cmp4_gt, precLt_floor x hx]
+        cases hlt : plt x v with
         | true => have hl' := hl.mp hlt; simp only [if_true, Bool.false_eq_true, false_iff]; omega
         | false =>
-        have hl' : ¬ _ := fun h => by rw [hl.mpr h] at hlt; cases hlt
-        simp only [Bool.false_eq_true, if_false, Bool.and_eq_true, beq_iff_eq]; omega
+          have hl' : ¬ _ := fun h => by rw [hl.mpr h] at hlt; cases hlt
+          simp only [Bool.false_eq_true, if_false, Bool.and_eq_true, beq_iff_eq]; omega
   | tilde v =>
-    simp only [BuildFree, rangeBuildFree, isEmpty_iff] at hr
-    simp only [Npm.satisfiesRange, toRef, satComp, boundsOf, fullP, Bounds.sat, Bool.not_false, Bool.true_and, Bool.and_true,
-      mk_eta v hr]
+    simp only [Npm.satisfiesRange, toRef, satComp, boundsOf, fullP, Bounds.sat, Bool.not_false, Bool.true_and, Bool.and_true]
     rw [Bool.eq_iff_iff]
     have hsw := swap_sum x.pre v.pre
-    simp only [Bool.and_eq_true, beq_iff_eq, ge_iff x v hb hr, precLe_iff, cmp4_lt, cmp4_gt, precLt_floor x hx]
+    simp only [Bool.and_eq_true, beq_iff_eq, pge_iff, precLe_iff, cmp4_lt, cmp4_gt, precLt_floor x hx]
     omega
   | gte v =>
-    simp only [BuildFree, rangeBuildFree, isEmpty_iff] at hr
-    simp only [Npm.satisfiesRange, toRef, satComp, boundsOf, fullP, Bounds.sat, Bool.not_false, Bool.true_and, Bool.and_true,
-      mk_eta v hr]
+    simp only [Npm.satisfiesRange, toRef, satComp, boundsOf, fullP, Bounds.sat, Bool.not_false, Bool.true_and, Bool.and_true]
     have hsw := swap_sum x.pre v.pre
-    rw [Bool.eq_iff_iff, ge_iff x v hb hr, precLe_iff, cmp4_lt, cmp4_gt]
+    rw [Bool.eq_iff_iff, pge_iff, precLe_iff, cmp4_lt, cmp4_gt]
+    simp only
     omega
   | gt v =>
-    simp only [BuildFree, rangeBuildFree, isEmpty_iff] at hr
-    simp only [Npm.satisfiesRange, toRef, satComp, fullP, Partial.isFull, Option.isSome_some, Bool.and_self, if_true, mk_eta v hr]
+    simp only [Npm.satisfiesRange, toRef, satComp, fullP, Partial.isFull, Option.isSome_some, Bool.and_self, if_true]
     have hsw := swap_sum x.pre v.pre
-    rw [Bool.eq_iff_iff, gt_iff x v hb hr, precLt_iff, cmp4_gt, cmp4_lt]
+    rw [Bool.eq_iff_iff, pgt_iff, precLt_iff, cmp4_gt, cmp4_lt]
+    simp only
     omega
   | lte v =>
-    simp only [BuildFree, rangeBuildFree, isEmpty_iff] at hr
-    simp only [Npm.satisfiesRange, toRef, satComp, boundsOf, fullP, Bounds.sat, Bool.not_false, Bool.true_and, Bool.and_true,
-      mk_eta v hr]
-    rw [Bool.eq_iff_iff, le_iff x v hb hr, precLe_iff]
+    simp only [Npm.satisfiesRange, toRef, satComp, boundsOf, fullP, Bounds.sat, Bool.not_false, Bool.true_and, Bool.and_true]
+    rw [Bool.eq_iff_iff, ple_iff, precLe_iff]; exact Iff.rfl
   | lt v =>
-    simp only [BuildFree, rangeBuildFree, isEmpty_iff] at hr
-    simp only [Npm.satisfiesRange, toRef, satComp, boundsOf, fullP, Bounds.sat, Bool.not_false, Bool.true_and, Bool.and_true,
-      mk_eta v hr]
-    rw [Bool.eq_iff_iff, lt_iff x v hb hr, precLt_iff]
+    simp only [Npm.satisfiesRange, toRef, satComp, boundsOf, fullP, Bounds.sat, Bool.not_false, Bool.true_and, Bool.and_true]
+    rw [Bool.eq_iff_iff, plt_iff, precLt_iff]; exact Iff.rfl
   | any =>
     simp [Npm.satisfiesRange, toRef, satComp, boundsOf, Bounds.sat]
   | wildcardMajor m =>
@@ -240,62 +235,55 @@ theorem c02_npm_ast (r : Npm.VersionRange) (x : Version) (hr : BuildFree r) (hb 
     simp only [Bool.and_eq_true, beq_iff_eq, precLe_floor x hx, precLt_floor x hx]
     omega
   | hyphen f t =>
-    simp only [BuildFree, rangeBuildFree, Bool.and_eq_true, isEmpty_iff] at hr
-    simp only [Npm.satisfiesRange, toRef, satComp, boundsOf, fullP, Bounds.sat, Bool.not_false, Bool.true_and, Bool.and_true,
-      mk_eta f hr.1, mk_eta t hr.2]
+    simp only [Npm.satisfiesRange, toRef, satComp, boundsOf, fullP, Bounds.sat, Bool.not_false, Bool.true_and, Bool.and_true]
     rw [Bool.eq_iff_iff]
     have hsw := swap_sum x.pre f.pre
-    simp only [Bool.and_eq_true, ge_iff x f hb hr.1, le_iff x t hb hr.2, precLe_iff, cmp4_lt, cmp4_gt]
+    simp only [Bool.and_eq_true, pge_iff, ple_iff, precLe_iff, cmp4_lt, cmp4_gt]
     omega
 
 /-! ### whole specs (`And`, `Or`) -/
 
-theorem all_map_congr (rs : List Npm.VersionRange) (x : Version) (h : rs.all rangeBuildFree = true) (hb : x.build = [])
-    (hx : PreFloor x.pre) : rs.all (Npm.satisfiesRange · x) = (rs.map toRef).all (satComp · x) := by
+theorem all_map_congr (rs : List Npm.VersionRange) (x : Version) (hx : PreFloor x.pre) :
+    rs.all (Npm.satisfiesRange · x) = (rs.map toRef).all (satComp · x) := by
   induction rs with
   | nil => rfl
   | cons r rest ih =>
-    simp only [List.all_cons, Bool.and_eq_true] at h
     simp only [List.all_cons, List.map_cons]
-    rw [c02_npm_ast r x h.1 hb hx, ih h.2]
+    rw [c02_npm_ast r x hx, ih]
 
-theorem flat_sat (s : Npm.VersionSpec) (x : Version) (hb : x.build = []) (hx : PreFloor x.pre)
-    (hs : flatBuildFree s = true) (hno : isOr s = false) :
+theorem flat_sat (s : Npm.VersionSpec) (x : Version) (hx : PreFloor x.pre) (hno : isOr s = false) :
     Npm.satisfiesFlat s x = (flatRef s).all (satComp · x) := by
   cases s with
-  | single r => simp only [Npm.satisfiesFlat, flatRef, List.all_cons, List.all_nil, Bool.and_true]; exact c02_npm_ast r x hs hb hx
-  | and rs => simp only [Npm.satisfiesFlat, flatRef]; exact all_map_congr rs x hs hb hx
+  | single r => simp only [Npm.satisfiesFlat, flatRef, List.all_cons, List.all_nil, Bool.and_true]; exact c02_npm_ast r x hx
+  | and rs => simp only [Npm.satisfiesFlat, flatRef]; exact all_map_congr rs x hx
   | or _ => cases hno
 
 /-- **`VersionSpec::satisfies` is node-semver's `sat` of the denoted range** -/
-theorem c02_npm_spec_ast (s : Npm.VersionSpec) (x : Version) (hs : specBuildFree s = true) (hb : x.build = [])
-    (hx : PreFloor x.pre) :
+theorem c02_npm_spec_ast (s : Npm.VersionSpec) (x : Version) (hx : PreFloor x.pre) :
     Npm.satisfies s x = NodeSemver.sat (specRef s) x := by
   cases s with
   | single r =>
     simp only [Npm.satisfies, specRef, NodeSemver.sat, List.any_cons, List.any_nil, Bool.or_false]
-    exact flat_sat (.single r) x hb hx hs rfl
+    exact flat_sat (.single r) x hx rfl
   | and rs =>
     simp only [Npm.satisfies, specRef, NodeSemver.sat, List.any_cons, List.any_nil, Bool.or_false]
-    exact flat_sat (.and rs) x hb hx hs rfl
+    exact flat_sat (.and rs) x hx rfl
   | or ss =>
     simp only [Npm.satisfies, specRef, NodeSemver.sat]
-    simp only [specBuildFree] at hs
     induction ss with
     | nil => rfl
     | cons s rest ih =>
-      simp only [List.all_cons, Bool.and_eq_true] at hs
       cases hor : isOr s with
       | true =>
         cases s with
         | or inner =>
           simp only [List.any_cons, Npm.satisfiesFlat, Bool.false_or, List.filter_cons, hor, Bool.not_true, Bool.false_eq_true, if_false]
-          exact ih hs.2
+          exact ih
         | single _ => cases hor
         | and _ => cases hor
       | false =>
         simp only [List.any_cons, List.filter_cons, hor, Bool.not_false, if_true, List.map_cons]
-        rw [flat_sat s x hb hx hs.1 hor, ih hs.2]
+        rw [flat_sat s x hx hor, ih]
 
 /-- `=v` and `v` denote the same comparator: normalising the reference's reading changes nothing -/
 theorem satComp_norm (c : Comp) (x : Version) : satComp (normComp c) x = satComp c x := by
@@ -318,9 +306,9 @@ theorem sat_norm (r : Range) (x : Version) : NodeSemver.sat (normRange r) x = No
 
 /-- **from one evaluation to all candidates**: when the code's parser and the reference parser read a spec text as
     the same range (`sameReading spec = "same"`, evaluated by the driver on every generated spec), the code's verdict
-    equals the reference verdict for EVERY strictly parsed candidate without build metadata -/
+    equals the reference verdict for EVERY strictly parsed candidate, build metadata or not -/
 theorem c02_npm_same_reading (spec : Text) (h : sameReading spec = "same") (v : Text) (x : Version)
-    (hv : parseStrict v = some x) (hb : x.build = []) :
+    (hv : parseStrict v = some x) :
     ∃ s r, Npm.parseSpec spec = some s ∧ NodeSemver.parse spec = some r ∧ Npm.satisfies s x = NodeSemver.sat r x := by
   unfold sameReading at h
   cases hs : Npm.parseSpec spec with
@@ -331,17 +319,12 @@ theorem c02_npm_same_reading (spec : Text) (h : sameReading spec = "same") (v : 
     | some r =>
       rw [hs, hr] at h
       simp only at h
-      cases hbf : specBuildFree s with
-      | false => rw [hbf] at h; simp at h
-      | true =>
-        rw [hbf] at h
-        simp only [Bool.not_true, Bool.false_eq_true, if_false] at h
-        have heq : specRef s = normRange r := by
-          by_cases hq : (specRef s == normRange r) = true
-          · exact eq_of_beq hq
-          · rw [if_neg hq] at h; simp at h
-        refine ⟨s, r, rfl, rfl, ?_⟩
-        rw [c02_npm_spec_ast s x hbf hb (parseStrict_floor v x hv), heq, sat_norm]
+      have heq : specRef s = normRange r := by
+        by_cases hq : (specRef s == normRange r) = true
+        · exact eq_of_beq hq
+        · rw [if_neg hq] at h; simp at h
+      refine ⟨s, r, rfl, rfl, ?_⟩
+      rw [c02_npm_spec_ast s x (parseStrict_floor v x hv), heq, sat_norm]
 
 /-- a strictly parsed candidate meets the two hypotheses as soon as it has no `+build` part -/
 theorem candidate_ok (t : Text) (x : Version) (h : parseStrict t = some x) : PreFloor x.pre :=
